@@ -1766,7 +1766,8 @@ func makePointerArshaler(t reflect.Type) *arshaler {
 	}
 	fncs.unmarshal = func(dec *jsontext.Decoder, va addressableValue, uo *jsonopts.Struct) error {
 		// NOTE: Struct.Format is forwarded to underlying unmarshal.
-		if dec.PeekKind() == 'n' {
+		k := dec.PeekKind()
+		if k == 'n' {
 			if _, err := dec.ReadToken(); err != nil {
 				return err
 			}
@@ -1786,6 +1787,17 @@ func makePointerArshaler(t reflect.Type) *arshaler {
 		}
 		if va.IsNil() {
 			va.Set(reflect.New(t.Elem()))
+		}
+		if k == jsontext.KindInvalid {
+			// The next token could not even be peeked at (e.g., due to
+			// an I/O error). Report that pending error right away.
+			// Otherwise, the logic for the element may call PeekKind again,
+			// which re-evaluates the input, and after a transient I/O error
+			// a JSON null would be stored in the element instead of
+			// clearing this pointer.
+			if _, err := dec.ReadToken(); err != nil {
+				return err
+			}
 		}
 		v := addressableValue{va.Elem(), false} // dereferenced pointer is always addressable
 		if err := unmarshal(dec, v, uo); err != nil {
@@ -1902,7 +1914,9 @@ func makeInterfaceArshaler(t reflect.Type) *arshaler {
 				va.SetZero()
 			}
 		}
-		if dec.PeekKind() == 'n' {
+		if k, err := peekKind(dec); err != nil {
+			return err
+		} else if k == 'n' {
 			if _, err := dec.ReadToken(); err != nil {
 				return err
 			}
